@@ -104,6 +104,10 @@ def run_plan(ctx, prop, target, plan):
             built.add(kind)
         rc, text = invoke(kind, args)
         summary, found = digest(kind, rc, text)
+        if not summary:
+            # the run died before its summary line: count what it announced
+            n = text.count("\nSEQ ") + (1 if text.startswith("SEQ ") else 0)
+            summary = {"sequences": n, "ops": 0}
         if summary:
             totals["sequences"] += summary["sequences"]
             totals["ops"] += summary["ops"]
